@@ -39,7 +39,7 @@ static PARSER_STEP_LIMIT: Limit = Limit::new(15_000_000);
 impl<'t> Parser<'t> {
     pub(super) fn new(inp: &'t Input) -> Parser<'t> {
         #[cfg(feature = "oq3_verif")]
-        verif::reset();
+        verif::start(inp.verif_len());
         Parser {
             inp,
             pos: 0,
@@ -423,16 +423,27 @@ impl CompletedMarker {
 pub mod verif {
     use std::cell::Cell;
 
-    /// Maximum number of events pushed without consuming a token.
+    /// Maximum number of events pushed without consuming a token: this constant plus
+    /// `EVENTS_PER_TOKEN` times the number of input tokens (unwinding a deeply nested
+    /// construct at end of input legitimately pushes a few events per open level).
     pub const EVENT_BUDGET: u32 = 10_000;
-    /// Maximum number of look-aheads (nth/nth_at/current) without consuming a token.
+    pub const EVENTS_PER_TOKEN: u32 = 64;
+    /// Maximum number of look-aheads (nth/nth_at/current) without consuming a token,
+    /// scaled in the same way.
     pub const LOOKAHEAD_BUDGET: u32 = 100_000;
+    pub const LOOKAHEADS_PER_TOKEN: u32 = 1024;
 
     thread_local! {
         static EVENTS_SINCE_BUMP: Cell<u32> = const { Cell::new(0) };
         static LOOKS_SINCE_BUMP: Cell<u32> = const { Cell::new(0) };
         static EVENTS_TOTAL: Cell<u64> = const { Cell::new(0) };
         static LOOKS_TOTAL: Cell<u64> = const { Cell::new(0) };
+        static N_TOKENS: Cell<u32> = const { Cell::new(0) };
+    }
+
+    pub(crate) fn start(n_tokens: usize) {
+        N_TOKENS.with(|c| c.set(n_tokens.min(1 << 24) as u32));
+        reset();
     }
 
     pub(crate) fn reset() {
@@ -451,7 +462,7 @@ pub mod verif {
             c.set(n);
             n
         });
-        if n > EVENT_BUDGET {
+        if n > EVENT_BUDGET + EVENTS_PER_TOKEN * N_TOKENS.with(|c| c.get()) {
             reset();
             panic!("oq3_verif: parser stuck (events pushed without consuming a token)");
         }
@@ -464,7 +475,7 @@ pub mod verif {
             c.set(n);
             n
         });
-        if n > LOOKAHEAD_BUDGET {
+        if n > LOOKAHEAD_BUDGET + LOOKAHEADS_PER_TOKEN * N_TOKENS.with(|c| c.get()) {
             reset();
             panic!("oq3_verif: parser stuck (look-aheads without consuming a token)");
         }
